@@ -49,7 +49,7 @@ func numCorpus() []numCorpusEntry {
 
 	// F-14: division by zero; the sign is documented to follow the receiver
 	for _, nz := range []cty.Value{negZeroA, negZeroB, negZeroC, negZeroD} {
-		add("Divide", n(2), nz, "F-14 positive / -0")
+		add("Divide", n(2), nz, "F-14 (fixed 47ed13c) positive / -0")
 		add("Divide", n(-2), nz, "F-14 negative / -0")
 		add("Divide", cty.PositiveInfinity, nz, "F-14 +Inf / -0")
 		add("Divide", fl(0.5), nz, "F-14 fraction / -0")
@@ -77,11 +77,11 @@ func numCorpus() []numCorpusEntry {
 	add("Divide", n(6), fl(3), "exact quotient")
 
 	// Modulo: truncated division; precision of the floor step (value_ops.go Modulo, "FIXME: a bit clumsy")
-	add("Modulo", pow2v(600), n(65535), "DEFECT quotient wider than 512 bits: exact remainder 256")
-	add("Modulo", fl(1e23), n(65535), "DEFECT receiver 53 bits, quotient 61 bits: exact remainder 61247")
-	add("Modulo", n(math.MaxInt64), pf("0.12345678905"), "DEFECT result exceeds the divisor")
-	add("Modulo", fprec(32, "-9.787954735e55"), fprec(53, "-2.053742361684148e-25"), "DEFECT 32-bit receiver, result exceeds the divisor")
-	add("Modulo", fl(1e300), n(7), "DEFECT 1e300 % 7: exact remainder 1")
+	add("Modulo", pow2v(600), n(65535), "F-50 (fixed 1320825) quotient wider than 512 bits: exact remainder 256")
+	add("Modulo", fl(1e23), n(65535), "F-50 (fixed 1320825) receiver 53 bits, quotient 61 bits: exact remainder 61247")
+	add("Modulo", n(math.MaxInt64), pf("0.12345678905"), "F-50 (fixed 1320825) result exceeds the divisor")
+	add("Modulo", fprec(32, "-9.787954735e55"), fprec(53, "-2.053742361684148e-25"), "F-50 (fixed 1320825) 32-bit receiver, result exceeds the divisor")
+	add("Modulo", fl(1e300), n(7), "F-50 (fixed 1320825) 1e300 % 7: exact remainder 1")
 	add("Modulo", fl(72057594037927952), n(10), "float64 receiver 2^56+16 % 10 = 2")
 	add("Modulo", fl(1<<53), n(3), "2^53 % 3 = 2")
 	add("Modulo", fl(float64(1<<62)*4), n(10), "2^64 as float64 % 10 = 6")
@@ -167,9 +167,9 @@ func numCorpus() []numCorpusEntry {
 		add(op, pf("0.1"), fl(0.1), "512-bit 0.1 vs float64 0.1")
 		add(op, fl(1.00000000001), pf("1.00000000001"), "F-47 pair")
 		add(op, n(3), pf("3"), "same integer, other precision")
-		add(op, fl(0.1), cty.NumberVal(new(big.Float).SetPrec(512).SetFloat64(0.1)), "KNOWN same fraction at 53 and 512 bits (Equals is False)")
-		add(op, cty.NumberVal(new(big.Float).SetPrec(512).SetFloat64(0.0005032122135162354)), fl(0.0005032122135162354), "KNOWN same fraction at 512 and 53 bits")
-		add(op, fl(0.1).Multiply(n(1)), fl(0.1), "KNOWN x*1 vs x: same value at 64 and 53 bits")
+		add(op, fl(0.1), cty.NumberVal(new(big.Float).SetPrec(512).SetFloat64(0.1)), "F-120 (fixed 0c5f415) same fraction at 53 and 512 bits (Equals is False)")
+		add(op, cty.NumberVal(new(big.Float).SetPrec(512).SetFloat64(0.0005032122135162354)), fl(0.0005032122135162354), "F-120 (fixed 0c5f415) same fraction at 512 and 53 bits")
+		add(op, fl(0.1).Multiply(n(1)), fl(0.1), "F-120 (fixed 0c5f415) x*1 vs x: same value at 64 and 53 bits")
 		add(op, fl(0.5), pf("0.5"), "same short fraction at 53 and 512 bits (Equals is True)")
 		add(op, n(math.MaxInt64), cty.NumberUIntVal(1<<63), "2^63-1 vs 2^63")
 		add(op, fl(float64(1<<62)*2), n(math.MaxInt64), "2^63 (float64) vs MaxInt64")
@@ -223,8 +223,8 @@ func collCorpus() []collCase {
 		return cc
 	}
 
-	// DEFECT witness: Index on a map with a key that is absent yields a null instead of being rejected
-	add("DEFECT map Index absent key", keyed("map", cty.Number, "a", n(1)))
+	// F-49 witness: Index on a map with a key that is absent yields a null instead of being rejected
+	add("F-49 (fixed 2df8f8f) map Index absent key", keyed("map", cty.Number, "a", n(1)))
 	add("map with empty-string key", keyed("map", cty.String, "", s("empty"), "a", s("A")))
 	add("map offered an NFD key", keyed("map", cty.Number, nfd("é"), n(1), "k", n(2)))
 	add("map of null members", keyed("map", cty.Bool, "a", cty.NullVal(cty.Bool), "b", cty.True))
